@@ -50,6 +50,8 @@ RULE = ("valid messages generated from the dumped metadata (wire bytes built ind
         "2046..2049/3000/5000 bytes in header, body, group and trailer fields, BeginString/BodyLength/MsgType at their "
         "capacities, huge / UB group counts, NULs, Length/data pairs with wrong lengths, the group-hang shape in groups "
         "with and without mandatory members; ENC with a string field of 0..9000 bytes around the output[] boundary; "
+        "the text of Length fields (2^32-k, 2^32+k, 2^31+-k, characters below '0', signs, empty, remaining size) on the "
+        "sanitized and on an unsanitized build (DECW: fast_atoi<int> wraps, as the model); "
         "REENC of long messages; fast_atoi, date/time parser and calc_chksum site probes; of the incidental hang "
         "shapes (truncation / flip inside an open group without mandatory member) a sample is kept. non-trivial = input of >= 40 bytes whose run "
         "produced a classified result; distinct = distinct case lines")
@@ -70,6 +72,9 @@ def build(tier):
     built = G.build_codec(schemas(tier))
     # alignment checking only in the harness translation unit (CHKSUM op); runtime objects as everywhere
     built["exes3"] = {s: B.harness("h_c03", runtime=None, schema=s, extra=["-fsanitize=alignment"]) for s in schemas(tier)}
+    # the same harness WITHOUT sanitizers (DECW cases): texts on which fast_atoi<int> is UB abort the
+    # sanitized run before the code under test is reached; here they wrap as the model says
+    built["exesW"] = {s: B.harness("h_c03", runtime=None, schema=s, variant="plain") for s in schemas(tier)}
     built["impl"] = [built["exes3"][schemas(tier)[0]]]
     _state["built"] = built
     return built
@@ -160,11 +165,14 @@ def run_impl(built, cases, tier):
         s, rest = G.schema_of(c.line, default)
         exp = False
         w = rest.split(" ")
-        if w[0] in ("DEC", "REENC") and len(w) == 3:
+        if w[0] in ("DEC", "DECW", "REENC") and len(w) == 3:
             try:
                 exp = hang_shape(built["metas"][s], bytes.fromhex(w[2]) if w[2] != "-" else b"")
             except Exception:
                 exp = False
+        if w[0] == "DECW":
+            by.setdefault(s + "+plain", []).append((k, "DEC " + rest[5:], True, exp))
+            continue
         by.setdefault(s, []).append((k, rest, risky(c, rest), exp))
     jobs = []
     workers = 8
@@ -173,7 +181,7 @@ def run_impl(built, cases, tier):
         for w in range(workers):
             part = items[w::workers]
             if part:
-                jobs.append((built["exes3"][s], part))
+                jobs.append((built["exesW"][s[:-6]] if s.endswith("+plain") else built["exes3"][s], part))
     with ThreadPoolExecutor(max_workers=workers) as ex:
         outs = list(ex.map(lambda j: run_chunk(j[0], [x[1] for x in j[1]], [x[2] for x in j[1]],
                                                expected={i for i, x in enumerate(j[1]) if x[3]}), jobs))
@@ -393,7 +401,7 @@ def py_atoi_u32(txt):
     return r
 
 
-def admissible(meta, data, allowed=None, ub_ok=False):
+def admissible(meta, data, allowed=None, ub_ok=False, int_ub_ok=False):
     """Generator-side filter (see ASSUMPTIONS): typed texts unchanged or plain digits, no
     uninitialised tag read, no fast_atoi UB unless the case is about it."""
     toks = tokens(data)
@@ -410,7 +418,7 @@ def admissible(meta, data, allowed=None, ub_ok=False):
             continue
         v = val.split(b"\0")[0]
         if ft in INT_TYPES:
-            if py_atoi_ub(v) and not ub_ok:
+            if py_atoi_ub(v) and not (ub_ok or int_ub_ok):
                 return False
             if ft == 2 and f != 9 and i + 1 < len(toks) and len(toks[i + 1][0]) > len(tag):
                 return False
@@ -681,6 +689,39 @@ def gen_schema(rng, tier, meta, px, cs):
             if re.match(rb"\d{%d,}" % (len(str(lf)) + 1), data_v):
                 continue
         add(refix(w[:i] + tok + w[i:]), "data-pair")
+    # -- the TEXT of a Length field (val_sz = fast_atoi<unsigned>(val), compared with 2047 as unsigned):
+    #    the 32-bit wrap neighbourhood, 2^31 +- k, characters just below '0' (negative under a signed
+    #    reading), signs, empty text, and lengths around what is left of the message.  Every text goes
+    #    through the unsanitized build (DECW); those on which Field<int>'s fast_atoi<int> has no UB
+    #    also through the sanitized one.
+    wrap_texts = [str(2 ** 32 - j).encode() for j in range(1, 9)] + [str(2 ** 32 + j).encode() for j in (0, 1, 2, 3, 5, 2047, 2048)] + \
+                 [str(2 ** 31 + j).encode() for j in (-2, -1, 0, 1, 2)] + \
+                 [b"-", b".", b"/", b"+", b",", b"--", b"-.", b"/-", b"+/", b"..", b"-/-", b"/0", b"-0", b"+0", b"",
+                  b"-1", b"-2", b"-3", b"-5", b"+5", b"-2047", b"-2048", b"0", b"2047", b"2048", b"99999"]
+    for pi, (owner, lf, df) in enumerate(pairs[:k(4, 12)]):
+        texts = list(wrap_texts)
+        if not thorough:
+            # every run: all single characters and the 2^32 - k block; a rotating sample of the rest
+            must = [t for t in texts if len(t) <= 1 or t in wrap_texts[:8]]
+            texts = must + rng.sample([t for t in texts if t not in must], 10)
+        for txt in texts + ["rem-8", "rem-7", "rem-1", "rem", "rem+1"]:
+            mt = owner if owner in meta.msgs else rng.choice(types)
+            mt, hdr, body, trl, w = valid(mtype=mt)
+            tgt = {"header": hdr, "trailer": trl}.get(owner, body)
+            tgt[:] = [x for x in tgt if x.fnum not in (lf, df)]
+            w = wire(meta, mt, hdr, body, trl)
+            i = w.index(SOH, w.index(b"\x0135=") + 1) + 1 if owner == "header" else len(w) - 7
+            data_v = rng.choice((b"abcdefgh", b"x" * 40, b"a\x01b", G.gen_string(rng, 3, 30)))
+            if isinstance(txt, str):
+                # what is left of the message after "<df>=": data, SOH and everything behind it
+                rem = len(data_v) + 1 + len(w) - i
+                txt = str(max(0, rem + {"rem-8": -8, "rem-7": -7, "rem-1": -1, "rem": 0, "rem+1": 1}[txt])).encode()
+            data = refix(w[:i] + b"%d=%s\x01%d=%s\x01" % (lf, txt, df, data_v) + w[i:])
+            mode = pick_modes(rng)
+            if admissible(meta, data, int_ub_ok=True):
+                cs.append(Case("%sDECW %s %s" % (px, mode, data.hex()), "length-text-plain"))
+            add(data, "length-text", mode=mode)
+
     # the fixed-width extractor at its limit: val_sz = 2047 is copied, 2048 is refused
     for ln in (2046, 2047, 2048, 2049):
         for owner, lf, df in pairs[:k(2, 6)]:
@@ -819,7 +860,7 @@ def _parts(case):
 
 def _dec_bytes(case):
     meta, w = _parts(case)
-    if w[0] in ("DEC", "REENC") and len(w) == 3:
+    if w[0] in ("DEC", "DECW", "REENC") and len(w) == 3:
         return meta, bytes.fromhex(w[2]) if w[2] != "-" else b""
     return meta, None
 
